@@ -249,3 +249,38 @@ pub mod s6 {
         };
     }
 }
+
+pub mod s7 {
+    use a2lmacros_intree::a2ml_specification;
+    // documentation comments (///) on every kind of item: they are copied into the generated code and
+    // into the text constant (as // comments), which must still be valid A2ML
+    a2ml_specification! {
+        <SpecSeven>
+
+        block "IF_DATA" taggedunion if_data {
+            "DOC" struct {
+                uint version;  /// protocol version
+                enum Transfer {
+                    "MODE_OFF" = 0, /// nothing is transferred
+                    "MODE_SINGLE" = 1, /// one value per request, "on demand"
+                    "MODE_BLOCK" = 2 /// last item: blocks of values
+                } transfer; /// the transfer mode
+                char name[16]; /// a name
+                taggedstruct {
+                    "RATE" float rate; /// samples per second
+                    ("CHANNEL" struct {
+                        uchar index; /// channel number
+                        enum Dir {
+                            "DIR_IN", /// towards the ECU
+                            "DIR_OUT"
+                        } dir;
+                    })*; /// any number of channels
+                    block "EXTRA" struct {
+                        long offset; /// offset in bytes
+                        double factor;
+                    }; /// optional block
+                };
+            };
+        };
+    }
+}
